@@ -177,14 +177,49 @@ def leanchecker(modules):
 
 # ------------------------------------------------------------------ step 3: Rust side
 
+def tree_hash():
+    """Content hash of the sources of the tree under test (mtimes can lie after a restore / tree switch)."""
+    import hashlib
+    h = hashlib.sha256()
+    for base in ("src", "Cargo.toml", "Cargo.lock"):
+        p = os.path.join(REPO, base)
+        if os.path.isfile(p):
+            h.update(base.encode()); h.update(open(p, "rb").read())
+        for root, dirs, files in os.walk(p):
+            dirs.sort()
+            for fn in sorted(files):
+                fp = os.path.join(root, fn)
+                h.update(os.path.relpath(fp, REPO).encode()); h.update(open(fp, "rb").read())
+    return h.hexdigest()
+
+
+def force_if_changed(kind, target_env, pkgs):
+    """If the tree's content differs from what the last build of this kind saw, drop cargo's
+    fingerprints for the affected packages so the rebuild cannot be skipped on stale mtimes."""
+    stamp = os.path.join(BUILD, f"{kind}.treehash")
+    cur = tree_hash()
+    old = open(stamp).read().strip() if os.path.exists(stamp) else None
+    if old != cur:
+        for args in pkgs:
+            run(["cargo", "clean", "--offline"] + args, cwd=args_cwd(kind), env=target_env)
+    return stamp, cur
+
+
+def args_cwd(kind):
+    return os.path.join(VERIF, "harness") if kind == "harness" else REPO
+
+
 def cargo_build_harness():
     h = os.path.join(VERIF, "harness")
     with Lock("cargo"):
+        stamp, cur = force_if_changed("harness", ENV, [["--release", "-p", "copia"], ["--release", "-p", "copia-corr"]])
         try:
             shutil.copyfile(os.path.join(REPO, "Cargo.lock"), os.path.join(h, "Cargo.lock"))
         except OSError:
             pass
         r = run(["cargo", "build", "--release", "--offline", "-q"], cwd=h)
+        if r.returncode == 0:
+            open(stamp, "w").write(cur)
     return r.returncode == 0, r.stdout
 
 
@@ -192,8 +227,11 @@ def cargo_build_cli():
     """The real `copia` binary from /repo's current working tree (dev profile), outside /repo."""
     env = dict(ENV, CARGO_TARGET_DIR=CLI_TARGET)
     with Lock("cargo-cli"):
+        stamp, cur = force_if_changed("cli", env, [["-p", "copia", "--manifest-path", os.path.join(REPO, "Cargo.toml")]])
         r = run(["cargo", "build", "--offline", "-q", "--features", "cli", "--bin", "copia",
                  "--manifest-path", os.path.join(REPO, "Cargo.toml")], env=env)
+        if r.returncode == 0:
+            open(stamp, "w").write(cur)
     return r.returncode == 0, r.stdout
 
 
